@@ -473,20 +473,20 @@ pub open spec fn prev_state_table(
         Some(id) => if !ctx0.results().contains_key(dec(id)) {
             // (i) own pending request, the host has not answered yet: nothing consumed, nothing emitted here,
             //     the caller is told not to execute and to re-emit the same state; the subgraph stays incomplete
-            &&& ctx1.results() == ctx0.results()
+            &&& ctx1.results() =~= ctx0.results()
             &&& pushed1 == pushed0
             &&& (r matches Ok(sd) && sd.is(false, Some(c)))
             &&& !ctx1.complete()
         } else {
             // (ii) / C06.V6 the answer keyed by *this* state's call id is consumed -- that one and no other --
             //      and recorded once; the caller is told not to execute and has nothing to re-emit
-            &&& ctx1.results() == ctx0.results().remove(dec(id))
+            &&& ctx1.results() =~= ctx0.results().remove(dec(id))
             &&& r matches Ok(sd) ==> sd.is(false, None)
                     && pushed_one(pushed0, pushed1, |x: CallResult| is_executed(x))
             &&& r is Err ==> (pushed_one(pushed0, pushed1, |x: CallResult| is_failed(x)) || pushed1 == pushed0)
         },
         None => {
-            &&& ctx1.results() == ctx0.results()
+            &&& ctx1.results() =~= ctx0.results()
             &&& match c {
                 // (iii) already executed: the same state is re-emitted, the caller is told not to execute
                 CallResult::Executed(_) => {
